@@ -119,8 +119,8 @@ func (s *Batcher) StatusString() string {
 
 	elapsedTime := time.Since(s.lastRateUpdate).Seconds()
 	if elapsedTime >= 0.5 {
-		s.lastRate = uint64(float64(s.readBytes-s.lastRateBytes) / elapsedTime)
-		s.lastRateBytes = s.readBytes
+		s.lastRate = uint64(float64(readBytes-s.lastRateBytes) / elapsedTime)
+		s.lastRateBytes = readBytes
 		s.lastRateUpdate = time.Now()
 	}
 
